@@ -218,6 +218,21 @@ def check_build(gene, rd, viol, labels):
             if kind != wantk:
                 # equal vectors of different kinds share one configuration (first one wins): judge by vector only
                 labels.append("kind-shared-vector")
+            # the configuration's gene vector says exactly what the database entry says: which regions the allele has
+            vec = gene.cn_configs[a.cn_config].cn[0]
+            regs_ = [r for r in rd["order"] if r not in rd["zero"] and r in vec]
+            if sig[0] == "default":
+                want_has = set(regs_)
+            elif sig[0] == "deletion":
+                want_has = set()
+            elif sig[0] == "custom":
+                want_has = set(regs_) - set(sig[1])
+            else:
+                want_has = set(sig[1]) & set(regs_)
+            got_has = {r for r in regs_ if vec[r] > 0}
+            if got_has != want_has:
+                viol.append(V("configuration-vector-differs-from-database-entry:" + sig[0], allele=nm, config=a.cn_config,
+                              extra_regions=sorted(got_has - want_has), missing_regions=sorted(want_has - got_has)))
         if len(majors) > 1:
             viol.append(V("group-split-over-majors", sig=sig[0], alleles=names, majors=sorted(majors)))
         if len(names) > 1:
@@ -351,7 +366,7 @@ def enum_cases(tier):
 def strategy(tier):
     return st.fixed_dictionaries({
         "kind": st.just("generated"),
-        "db": gen_db.db_specs(kinds=gen_db.KINDS_ALL, max_sites=8, max_alleles=10, sv=True, pseudo=True, stress=True, gaps=True, small=True, keep_lost=True),
+        "db": gen_db.db_specs(kinds=gen_db.KINDS_ALL, max_sites=8, max_alleles=10, sv=True, pseudo=True, stress=True, gaps=True, small=True, keep_lost=True, many_exons=True),
     })
 
 
